@@ -689,6 +689,12 @@ def call_ext(it: Any, f: ExtV, args: List[Any], kwargs: Dict[str, Any], node: An
         from .builtins_model import BUILTINS
 
         return BUILTINS["dict"].fn(it, args[1:] if name.endswith("defaultdict") else args, kwargs, node)
+    if name == "types.new_class" and args:
+        ns: Dict[str, Any] = {}
+        body = kwargs.get("exec_body", args[3] if len(args) > 3 else None)
+        if body is not None:
+            it.call_function(body, [ns], {}, node)
+        return it.dynamic_class(args[0], args[1] if len(args) > 1 else kwargs.get("bases", ()), ns, it.cur_mod)
     if name == "types.MethodType" and len(args) == 2:
         return Bound(args[0], args[1])
     if name == "dataclasses.fields" and args:
